@@ -473,6 +473,89 @@ func (n *node) fileSave(kf string, epoch int, path string, do func() error) erro
 	return nil
 }
 
+// joinerSnapshot builds, with the real DKG store, the folder of a node that was invited into a
+// resharing (epoch 2), recorded Joined, and died: key pair, dkg.db with a staged record only.
+func (n *node) joinerSnapshot() error {
+	var fresh *snapshot
+	for _, s := range n.snaps {
+		if s.name == "fresh" {
+			fresh = s
+		}
+	}
+	if fresh == nil {
+		return errors.New("snapshot of the fresh node not found")
+	}
+	d, err := copyTree(n.root, fresh.dir, fmt.Sprintf("%03d-joiner-of-resharing", n.snapN))
+	if err != nil {
+		return err
+	}
+	n.snapN++
+	st, err := dkg.NewDKGStore(d)
+	if err != nil {
+		return err
+	}
+	if err := st.SaveCurrent(beaconID, n.w.state(2, dkg.Joined, 1, 0)); err != nil {
+		return err
+	}
+	if err := st.Close(); err != nil {
+		return err
+	}
+	run := append(append([]string{}, fresh.run...), fmt.Sprintf("PDkgTx [(BCurrent, %s)]", drec{2, int(dkg.Joined), 1, 0}.coq()))
+	n.snaps = append(n.snaps, &snapshot{name: "joiner-of-resharing/joined-recorded", dir: d, run: run, cp: fmt.Sprintf("(CAfter %d)", len(run)), kind: "after"})
+	return nil
+}
+
+// daemonRestarts starts a real daemon on the snapshots of the first key generation (before it, at
+// each staged state, right after the database commit, after the files are written) and on the
+// joiner's: what `drand start` does there is compared with the model, and a node that never
+// completed a DKG and has no key files must come up waiting for one, not be refused.
+func daemonRestarts(rep *emit.Report, w *world, n *node, root string, add func(l, d string, nontrivial bool)) error {
+	want := map[string]bool{"fresh": true, "dkg-save-current-e1-s1": true, "dkg-save-current-e1-s9": true, "dkg-save-current-e1-s6": true,
+		"dkg-save-finished-e1": true, "save-KShare-e1/renamed": true, "save-KShare-e1/written": true, "joiner-of-resharing/joined-recorded": true}
+	type res struct {
+		s   *snapshot
+		out daemonOutcome
+		o   obs
+		err error
+	}
+	var sel []*res
+	for _, s := range n.snaps {
+		if want[s.name] {
+			sel = append(sel, &res{s: s})
+		}
+	}
+	if len(sel) < 6 {
+		return fmt.Errorf("daemon restarts: only %d of the expected snapshots exist", len(sel))
+	}
+	var wg sync.WaitGroup
+	for _, r := range sel {
+		wg.Add(1)
+		go func(r *res) {
+			defer wg.Done()
+			if r.o, r.err = w.reload(r.s, root+"/dr"); r.err != nil {
+				return
+			}
+			r.out, r.err = w.daemonRestart(r.s, root)
+		}(r)
+	}
+	wg.Wait()
+	for _, r := range sel {
+		if r.err != nil {
+			return fmt.Errorf("daemon restart on %s: %w", r.s.name, r.err)
+		}
+		add(fmt.Sprintf("DaemonRestart %s %s %s", emit.List(r.s.run), r.s.cp, r.out.coq()), fmt.Sprintf("%s real daemon started on %s", w.sch.Name, r.s.name), true)
+		rep.Count("daemon-restart/" + r.out.Class)
+		if r.o.fin == nil && !r.o.gPresent && !r.o.sPresent && r.out.Class != "fresh" {
+			rep.Fail("C13-restart-refused-after-crash-in-first-dkg",
+				fmt.Sprintf("process died at %q (dkg.db: no completed record, staged record %s; no group file, no share): a real daemon started on that folder does not come up waiting for a DKG: LoadBeaconFromStore -> %s (%s), so `drand start` exits on every restart",
+					r.s.name, optDrec(r.o.cur), r.out.Class, r.out.Err),
+				map[string]interface{}{"scheme": w.sch.Name, "crash_point": r.s.name, "dkg_db_current": optDrec(r.o.cur), "dkg_db_finished": optDrec(r.o.fin),
+					"group_file_present": r.o.gPresent, "share_file_present": r.o.sPresent, "LoadBeaconFromStore": r.out})
+		}
+	}
+	return nil
+}
+
 // errClass projects an error of the key store on what matters here (never its text).
 func errClass(err error) string {
 	switch {
@@ -971,11 +1054,14 @@ func runScheme(rep *emit.Report, sch *crypto.Scheme, seed int64, root, tier stri
 	chainOps0 := len(n.ops)
 	var events []string
 	// ---- first DKG (epoch 1) ----
-	s1 := drec{1, int(dkg.Executing), 0, 0}
-	if err := n.saveCurrent(w.state(1, dkg.Executing, 0, 0), s1, &txCur); err != nil {
-		return nil, nil, err
+	// the staged states a node goes through before its first DKG completes: each is a SaveCurrent
+	for _, st := range []dkg.Status{dkg.Proposed, dkg.Joined, dkg.Executing} {
+		sd := drec{1, int(st), 0, 0}
+		if err := n.saveCurrent(w.state(1, st, 0, 0), sd, &txCur); err != nil {
+			return nil, nil, err
+		}
+		events = append(events, "EvStage "+sd.coq())
 	}
-	events = append(events, "EvStage "+s1.coq())
 	r1 := drec{1, int(dkg.Complete), 1, 1}
 	if err := n.saveFinished(w.state(1, dkg.Complete, 1, 1), r1, &txFin); err != nil {
 		return nil, nil, err
@@ -1024,6 +1110,10 @@ func runScheme(rep *emit.Report, sch *crypto.Scheme, seed int64, root, tier stri
 	events = append(events, "EvLeave")
 	_ = reshareFrom
 
+	// ---- a new joiner of a resharing that dies after it recorded Joined: no finished record, no files ----
+	if err := n.joinerSnapshot(); err != nil {
+		return nil, nil, err
+	}
 	// ---- reload every snapshot: K cases and monitor M ----
 	var lines, descr []string
 	add := func(l, d string, nontrivial bool) {
@@ -1070,11 +1160,24 @@ func runScheme(rep *emit.Report, sch *crypto.Scheme, seed int64, root, tier stri
 					"later_SaveGroup": errClass(gErr), "later_SaveShare": errClass(sErr), "group_file_after": lg, "share_file_after": ls})
 		}
 	}
+	// ---- a REAL daemon started on the crash points inside and around the first DKG ----
+	if err := daemonRestarts(rep, w, n, root, add); err != nil {
+		return nil, nil, err
+	}
 	for _, b := range n.blockedSaves {
 		rep.Fail("C13-leftover-temp-file-blocks-later-save", b, map[string]interface{}{"scheme": sch.Name, "history": "a cut temporary file as a crashed earlier Save leaves it, then this Save on the live node"})
 	}
 	// the whole history as events, expanded with the shape read from the source
-	final, err := w.reload(n.snaps[len(n.snaps)-1], root)
+	var last *snapshot
+	for _, sn := range n.snaps {
+		if sn.name == "reset/done" {
+			last = sn
+		}
+	}
+	if last == nil {
+		return nil, nil, errors.New("final snapshot of the history not found")
+	}
+	final, err := w.reload(last, root)
 	if err != nil {
 		return nil, nil, err
 	}
